@@ -19,6 +19,10 @@ def open_case(spec):
 
 def same_number(a, b):
     """Bitwise-style equality of two scalars: NaN equals NaN, otherwise ==."""
+    if isinstance(a, numpy.datetime64):
+        a = specs.code_of_stamp(a)
+    if isinstance(b, numpy.datetime64):
+        b = specs.code_of_stamp(b)
     if a is None:
         a = float("nan")
     if b is None:
@@ -61,3 +65,24 @@ def is_square_like(spec):
     shapes = specs.grid_shapes(spec)
     face = shapes["face"]
     return len(face) == 2 and face[0] == face[1]
+
+
+def snapshot(ds):
+    """Bit-exact record of a dataset's variables (dims, dtype, bytes, attribute names/values)."""
+    out = {}
+    for name, var in ds.variables.items():
+        values = numpy.asarray(var.values)
+        if values.dtype == object:
+            payload = repr(values.tolist())
+        else:
+            payload = numpy.ascontiguousarray(values).tobytes()
+        out[str(name)] = (tuple(var.dims), str(values.dtype), values.shape, payload,
+                          repr(sorted((str(k), repr(v)) for k, v in var.attrs.items())))
+    return out
+
+
+def changed_variables(ds, before):
+    """Names of variables that differ from a snapshot (or were added / removed)."""
+    after = snapshot(ds)
+    names = sorted(set(before) | set(after))
+    return [n for n in names if before.get(n) != after.get(n)]
